@@ -19,6 +19,10 @@ type c16Scale struct {
 	Max   F64  `json:"max"`
 	Clamp bool `json:"clamp,omitempty"`
 	Hint  int  `json:"hint,omitempty"` // integer whose powers have closed forms in the model; also the Base field
+	// Via > 0: the scale is first built (and used once) with a DIFFERENT domain and the exported
+	// Min/Max fields are then assigned (history: construct, use, re-domain, use). The scale the
+	// property talks about is the one the fields describe at the time of the call.
+	Via int `json:"via,omitempty"`
 }
 
 type c16Case struct {
@@ -54,6 +58,14 @@ func c16Make(s *c16Scale) (scale.Quantitative, error) {
 		if b < 2 {
 			b = 0
 		}
+		if s.Via > 0 {
+			l := &scale.Linear{Min: mn - 3, Max: mx*2 + 5, Base: b}
+			_ = l.Map(mn)
+			_ = l.Unmap(0.25)
+			l.Min, l.Max = mn, mx
+			l.SetClamp(s.Clamp)
+			return l, nil
+		}
 		return &scale.Linear{Min: mn, Max: mx, Base: b, Clamp: s.Clamp}, nil
 	case 1:
 		if !(mn*mx > 0) || mn == 0 || mx == 0 || (mn < 0) != (mx < 0) {
@@ -62,6 +74,22 @@ func c16Make(s *c16Scale) (scale.Quantitative, error) {
 		b := s.Hint
 		if b < 2 {
 			b = 10
+		}
+		if s.Via > 0 {
+			// same sign as the target domain, different ends
+			o1, o2 := mn*3, mn*48
+			if o1 > o2 {
+				o1, o2 = o2, o1
+			}
+			l, err := scale.NewLog(o1, o2, b)
+			if err != nil {
+				return nil, fmt.Errorf("NewLog rejected a valid domain: %v", err)
+			}
+			_ = l.Map(o1)
+			_ = l.Unmap(0.25)
+			l.Min, l.Max = mn, mx
+			l.SetClamp(s.Clamp)
+			return &l, nil
 		}
 		if mn <= mx {
 			l, err := scale.NewLog(mn, mx, b)
@@ -567,7 +595,27 @@ func c16QQScale(rng *rand.Rand, kind int) *c16Scale {
 	return c.S
 }
 
-func c16Gen(tier string, rng *rand.Rand, emit func(interface{})) {
+// c16Via marks about a third of the scales of generated cases as built through the
+// construct / use / re-domain history.
+func c16Via(c interface{}, rng *rand.Rand) interface{} {
+	cc, ok := c.(c16Case)
+	if !ok {
+		return c
+	}
+	mark := func(s *c16Scale) {
+		if s != nil && rng.Intn(3) == 0 && finite(float64(s.Min)*48) {
+			s.Via = 1
+		}
+	}
+	mark(cc.S)
+	mark(cc.Src)
+	mark(cc.Dst)
+	return cc
+}
+
+func c16Gen(tier string, rng *rand.Rand, emit0 func(interface{})) {
+	vrng := rand.New(rand.NewSource(rng.Int63()))
+	emit := func(c interface{}) { emit0(c16Via(c, vrng)) }
 	thorough := tier == "thorough"
 	// (a) NewLog: every combination of boundary arguments, then random ones
 	ends := []float64{math.Inf(-1), -100, -1, -1e-12, math.Copysign(0, -1), 0, 1e-12, 1, 100, math.Inf(1), math.NaN(), 5e-324, -5e-324}
